@@ -2,8 +2,8 @@
 # rebuild unit1.rs from unit0.rs + spec.py
 python3 - <<'PY'
 import re, sys, importlib.util
-sp = importlib.util.spec_from_file_location('spec','/tmp/probe/alloc/spec.py'); spec=importlib.util.module_from_spec(sp); sp.loader.exec_module(spec)
-s=open('/tmp/probe/alloc/unit0.rs').read()
+sp = importlib.util.spec_from_file_location('spec','/verif/design-probes/verus-alloc/spec.py'); spec=importlib.util.module_from_spec(sp); sp.loader.exec_module(spec)
+s=open('/verif/design-probes/verus-alloc/unit0.rs').read()
 def find_fn(s, name):
     m = re.search(r'\n(\s*)fn %s\b' % re.escape(name), s)
     assert m, name
@@ -68,5 +68,5 @@ for name,(ret,text) in spec.SPECS.items():
         sig = re.sub(r'->\s*([^{]+?)\s*$', lambda m: '-> (%s)' % ret, sig.rstrip())
     s = s[:i] + sig + text + '    ' + s[j:]
 s = s.replace('\n} // verus!', spec.PRELUDE + '\n} // verus!')
-open('/tmp/probe/alloc/unit1.rs','w').write(s)
+open('/verif/design-probes/verus-alloc/unit1.rs','w').write(s)
 PY
